@@ -125,6 +125,10 @@ def harness_F(eng, ctx):
     if kind == 'on':
         num = z3.fpMul(R, z3.FPVal(float(p), F), kfp)                 # exact: |k p| < 2**53
         den = float(q)
+    elif kind == 'near':
+        # three millionths of a step above a multiple: the decimal (k + 0.000003) * step
+        num = z3.fpAdd(R, z3.fpMul(R, z3.FPVal(float(p * 10 ** 6), F), kfp), z3.FPVal(float(3 * p), F))
+        den = float(q * 10 ** 6)
     else:
         num = z3.fpMul(R, z3.FPVal(float(p), F), z3.fpAdd(R, z3.fpMul(R, z3.FPVal(2.0, F), kfp), z3.FPVal(1.0, F)))
         den = float(2 * q)
@@ -143,7 +147,7 @@ def harness_F(eng, ctx):
             eng.prove(z3.fpEQ(state['index'].z, kfp), 'C09: index derived from an on-grid reference is k',
                       detail='%s, step %s' % (which, step_txt))
         else:
-            eng.fail_exception(ValueError('not refused'), label='C09: a half-step reference is accepted')
+            eng.fail_exception(ValueError('not refused'), label='C09: an off-grid reference (%s) is accepted' % ('half a step' if kind == 'half' else '3e-6 of a step') + ' off')
         eng.note({'t': 'reached'})
         return
     except ValueError as e:
@@ -270,7 +274,7 @@ class C09(Check):
         quick = self.tier == 'quick'
         steps = STEPS_QUICK if quick else STEPS_THOROUGH
         K = 1024 if quick else 32768
-        self.bounds = {'grid steps (mm)': steps, 'F: |k|': K, 'F: reference': 'fl(k*step) on-grid; fl((2k+1)*step/2) off-grid',
+        self.bounds = {'grid steps (mm)': steps, 'F: |k|': K, 'F: |k| for the 3e-6 family': 128 if quick else 4096, 'F: reference': 'fl(k*step) on-grid; fl((2k+1)*step/2) and fl((k+3e-6)*step) off-grid',
                        'R: k': 'every level of the planted curve', 'dataset': 'planted record (3 storms + 3 recessions, 1 h step), levels scaled to about 10 grid levels per interval'}
         self.unit('spowtd.rise', 'compute_rise_offsets', 'find_rise_offsets')
         self.unit('spowtd.recession', 'compute_offsets', 'find_recession_offsets')
@@ -278,7 +282,7 @@ class C09(Check):
         self.assumptions = ['F: the reference is the correctly rounded double of the decimal text k*step (one division of exact integers), '
                             'as Python parses the CLI argument; the grid step read from the database is the correctly rounded double of its decimal text',
                             'F: data of the planted record are exact rationals (R-mode); only the reference block is bit-precise',
-                            '"not a multiple" is exercised on the half-way points (distance step/2 from every multiple)',
+                            '"not a multiple" is exercised on the half-way points (distance step/2) and on points 3e-6 of a step away from a multiple',
                             'a multiple of the step that no interval crosses raises KeyError: stated as outside the property']
         self.stubs = ['numpy -> vf.nplite', 'sqlite3 -> vf.symsql', 'interp1d / brentq / linalg.solve contracts',
                       'int() / round() of a symbolic double -> integral-valued Float64 term (fpRoundToIntegral RTZ / RNE)']
@@ -292,6 +296,9 @@ class C09(Check):
                 kw = {'query_timeout_ms': tmo, 'oneshot_tactic': 'qffp'}
                 tasks.append(('F_on[%s,step=%s]' % (which, st), harness_F, {'which': which, 'kind': 'on', 'step': st, 'K': K}, kw))
                 tasks.append(('F_half[%s,step=%s]' % (which, st), harness_F, {'which': which, 'kind': 'half', 'step': st, 'K': K}, kw))
+                if st in ('1', '0.1') or not quick:
+                    tasks.append(('F_near[%s,step=%s]' % (which, st), harness_F,
+                                  {'which': which, 'kind': 'near', 'step': st, 'K': 128 if quick else 4096}, kw))
         with mp.get_context('fork').Pool(16) as pool:
             for exp in pool.imap_unordered(_task, tasks):
                 self.absorb(exp, need_paths=1)
@@ -339,6 +346,11 @@ class C09(Check):
             if 'refused' in failure.get('label', ''):
                 return (out.get('error') or '').startswith('ValueError'), info
             return idx is not None and idx != k, info
+        if h.startswith('F_near'):
+            ref = (Fraction(k) + Fraction(3, 10 ** 6)) * step
+            out = real_reference_run(which, st, _decimal_text(ref))
+            info['observed'] = out
+            return not (out.get('error') or '').startswith('ValueError'), info
         if h.startswith('F_half'):
             ref = Fraction(2 * k + 1) * step / 2
             out = real_reference_run(which, st, _decimal_text(ref))
